@@ -50,6 +50,10 @@ AmpClauses ==
         Clause("amplitude-is-coherent-sum-of-its-chains",
                ObsTermBag(a) = ExpectedTermBag(Rec.trs, ObsKey(a), Canonical),
                <<ObsKey(a), ObsTermBag(a), ExpectedTermBag(Rec.trs, ObsKey(a), Canonical)>>)
+  \* the named chain components A_{...} of the transitions of one amplitude add up to that amplitude, parity sign included
+  \* (observed equality of the expressions, logged by the driver; -1 = not judged: identical final-state particles)
+  /\ \A i \in DOMAIN Rec.amps :
+        Clause("named-chain-components-sum-to-their-amplitude", Rec.amps[i].comp_sum # 0, ObsKey(Rec.amps[i]))
   \* whatever symbol they are stored under: the chains of one coherence class (keys that differ by exchanging the
   \* projections of identical particles) are all there, each once - no symmetrisation term missing or doubled
   /\ \A i \in { j \in DOMAIN Rec.amps : Rec.amps[j].zero = 0 } :
